@@ -27,7 +27,7 @@ fn n_seeded(quick: bool) -> usize {
     if quick {
         2
     } else {
-        47
+        59
     }
 }
 
